@@ -1,46 +1,75 @@
 (* Implementation model of
      kappadata/caching/shared_dict_dataset.py (SharedDictDataset._cached_getitem, dispose)
      kappadata/caching/cached_dataset.py      (CachedDataset.__getitem__: transform after the cache; __len__)
-   with /verif/fixes/C19_clear_race.patch applied ([fixed] = true; [fixed] = false is the
-   reader of the code BEFORE that patch and is kept only to document what the patch repaired).
+   with /verif/fixes/C19_clear_race.patch ([fixed] = true) and /verif/fixes/C19_tensor_alias.patch
+   ([copyfix] = true) applied.  [fixed] = false / [copyfix] = false are the readers of the code BEFORE
+   the respective patch and are kept only to document what the patches repaired.
    No proofs here.
 
-   The shared dict is an association list (latest binding first).  Every operation on
-   the Manager dict proxy (`in`, `[]`, `[]=`, `clear`) is one atomic step, and so is one
-   access of the wrapped dataset (a load).  A process (a DataLoader worker / any holder
-   of a copy of the dataset object: all copies talk to the same Manager dict) runs a
-   program of commands; a schedule is an arbitrary list of process ids, each occurrence
-   lets that process perform its next atomic step (nothing happens if it has finished
-   or does not exist).
+   OBJECTS.  Samples are mutable Python objects: the model has an object store ([heap]: address ->
+   current content, objects are never freed) and everything that is passed around is an address.
+   A sample can be modified IN PLACE - by the post-cache transform ([inplace] = true: the transform
+   overwrites its argument and returns it, e.g. x.sub_(mean).div_(std)) or by whoever received it from
+   cached[i] (command [CMut]).  How the Manager connection transports a sample decides who shares an
+   object with whom:
+     [byref] = false  by value (pickle): the manager process stores a copy, every lookup yields a new copy
+     [byref] = true   by reference: torch tensors are sent as shared-memory handles - the stored object,
+                      the object the storing process keeps and every object any later lookup (of any
+                      process) yields are ONE object.
+   The repaired code returns copy.deepcopy(sample) ([copyfix] = true).
 
-   The wrapped dataset is [base : Z -> option Z]; [None] = the wrapped dataset raises
-   (IndexError), which leaves `cached[i]` unchanged and caches nothing.  The post-cache
-   transform may be stateful / random: its k-th call in process p is [tf (draws p k)]
-   with an arbitrary recorded draw. *)
+   The shared dict is an association list index -> address (latest binding first).  Every operation on
+   the Manager dict proxy (`in`, `[]`, `[]=`, `clear`) is one atomic step, and so is one access of the
+   wrapped dataset (a load; it yields a fresh object).  A process (a DataLoader worker / any holder of a
+   copy of the dataset object: all copies talk to the same Manager dict) runs a program of commands; a
+   schedule is an arbitrary list of process ids, each occurrence lets that process perform its next
+   atomic step (nothing happens if it has finished or does not exist).
+
+   The wrapped dataset is [base : Z -> option Z]; [None] = the wrapped dataset raises (IndexError),
+   which leaves `cached[i]` unchanged and caches nothing.  The post-cache transform may be stateful /
+   random: its k-th call in process p computes [tf (draws p k)] of the content with an arbitrary
+   recorded draw.  No transform = [inplace] with the identity (the sample itself is returned). *)
 From Coq Require Import ZArith List Bool.
 Import ListNotations.
 Open Scope Z_scope.
 
-Definition dict := list (Z * Z).       (* index -> cached raw sample *)
+Fixpoint set_nth {A} (n : nat) (a : A) (l : list A) : list A :=
+  match l, n with
+  | [], _ => []
+  | _ :: r, O => a :: r
+  | x :: r, S n' => x :: set_nth n' a r
+  end.
 
-Fixpoint dget (i : Z) (d : dict) : option Z :=
-  match d with [] => None | (k, v) :: d' => if i =? k then Some v else dget i d' end.
-Definition dset (i v : Z) (d : dict) : dict := (i, v) :: d.
+(* ---------------------------------------------------------------- the object store *)
+Definition heap := list Z.
+Definition hget (a : nat) (h : heap) : Z := nth a h 0.
+Definition hset (a : nat) (v : Z) (h : heap) : heap := set_nth a v h.           (* in-place write *)
+Definition halloc (v : Z) (h : heap) : heap * nat := (h ++ [v], length h).      (* a new object *)
+(* in-place modification of several objects: content += w *)
+Definition hbump (w : Z) (l : list nat) (h : heap) : heap :=
+  fold_left (fun h a => hset a (hget a h + w) h) l h.
+
+Definition dict := list (Z * nat).       (* index -> the cached raw sample (an object held by the manager) *)
+
+Fixpoint dget (i : Z) (d : dict) : option nat :=
+  match d with [] => None | (k, a) :: d' => if i =? k then Some a else dget i d' end.
+Definition dset (i : Z) (a : nat) (d : dict) : dict := (i, a) :: d.
 
 Inductive cmd :=
 | CGet (i : Z)       (* cached[i] *)
 | CClear             (* cached.dispose()  (= shared_dict.clear()) *)
-| CLen.              (* len(cached) *)
+| CLen               (* len(cached) *)
+| CMut (w : Z).      (* the consumer modifies, in place, what its last cached[i] returned (content += w) *)
 
 (* where a process stands inside `cached[i]` *)
 Inductive pcs :=
 | PStart                 (* between commands *)
 | PMiss (i : Z)          (* about to run `sample = self.dataset[idx]` *)
-| PSet (i v : Z)         (* about to run `self.shared_dict[idx] = sample` and return *)
+| PSet (i : Z) (a : nat) (* holds the loaded object a; about to run `self.shared_dict[idx] = sample` and return *)
 | PHit (i : Z).          (* `idx not in self.shared_dict` was False: about to run `self.shared_dict[idx]` *)
 
 Inductive res :=
-| RVal (v : Z)           (* the transformed sample *)
+| RVal (v : Z)           (* content of the returned (transformed) sample at the moment cached[i] returns *)
 | RKeyError              (* KeyError out of cached[i] *)
 | RBaseError.            (* the wrapped dataset's own exception out of cached[i] *)
 
@@ -50,67 +79,88 @@ Inductive ev :=
 | ELoad (p : nat) (i : Z)
 | EClear (p : nat)
 | ERet (p : nat) (i : Z) (k : nat) (r : res)
-| ELen (p : nat) (n : Z).
+| ELen (p : nat) (n : Z)
+| EMut (p : nat).
 
-Record proc := { pc : pcs; todo : list cmd; nacc : nat }.
-Record state := { sd : dict; procs : list proc; log : list ev }.
-
-Fixpoint set_nth {A} (n : nat) (a : A) (l : list A) : list A :=
-  match l, n with
-  | [], _ => []
-  | _ :: r, O => a :: r
-  | x :: r, S n' => x :: set_nth n' a r
-  end.
+(* [last]: the objects reachable from what the process' last successful cached[i] returned (the consumer
+   may write to all of them) *)
+Record proc := { pc : pcs; todo : list cmd; nacc : nat; last : list nat }.
+Record state := { hp : heap; sd : dict; procs : list proc; log : list ev }.
 
 Definition is_start (c : pcs) : bool := match c with PStart => true | _ => false end.
 
 Section Sem.
   Variable fixed : bool.             (* true = the KeyError fallback of the repaired code *)
+  Variable copyfix : bool.           (* true = `return copy.deepcopy(sample)` of the repaired code *)
+  Variable byref : bool.             (* the Manager connection transports the samples by reference (torch tensors) *)
+  Variable inplace : bool.           (* the transform works in place *)
   Variable base : Z -> option Z.     (* the wrapped dataset *)
   Variable blen : Z.                 (* len(wrapped dataset) *)
-  Variable tf : Z -> Z -> Z.         (* the post-cache transform: draw -> sample -> sample *)
+  Variable tf : Z -> Z -> Z.         (* the post-cache transform: draw -> content -> content *)
   Variable draws : nat -> nat -> Z.  (* draw of the k-th transform call of process p *)
 
+  (* one trip through the Manager connection (either direction) *)
+  Definition transport (h : heap) (a : nat) : heap * nat := if byref then (h, a) else halloc (hget a h) h.
+  (* `return copy.deepcopy(sample)` resp. `return sample` *)
+  Definition ret_copy (h : heap) (a : nat) : heap * nat := if copyfix then halloc (hget a h) h else (h, a).
+  (* `sample = self.transform(sample)`: (heap, result, objects reachable from the result) *)
+  Definition apply_tf (h : heap) (d : Z) (a : nat) : heap * nat * list nat :=
+    if inplace then (hset a (tf d (hget a h)) h, a, [a])
+    else let '(h', a') := halloc (tf d (hget a h)) h in (h', a', [a'; a]).
+  (* the tail of cached[i] once `sample` (object a) is in hand *)
+  Definition deliver (p : nat) (i : Z) (k : nat) (h : heap) (a : nat) : heap * list nat * ev :=
+    let '(h1, a1) := ret_copy h a in
+    let '(h2, a2, reach) := apply_tf h1 (draws p k) a1 in
+    (h2, reach, ERet p i k (RVal (hget a2 h2))).
+
   (* one atomic step of process p *)
-  Definition pstep (p : nat) (d : dict) (pr : proc) : dict * proc * list ev :=
+  Definition pstep (p : nat) (h : heap) (d : dict) (pr : proc) : heap * dict * proc * list ev :=
     let k := nacc pr in
+    let l := last pr in
     match pc pr, todo pr with
-    | PStart, [] => (d, pr, [])
-    | PStart, CClear :: r => ([], {| pc := PStart; todo := r; nacc := k |}, [EClear p])   (* shared_dict.clear() *)
-    | PStart, CLen :: r => (d, {| pc := PStart; todo := r; nacc := k |}, [ELen p blen])   (* len(self.dataset) *)
+    | PStart, [] => (h, d, pr, [])
+    | PStart, CClear :: r => (h, [], {| pc := PStart; todo := r; nacc := k; last := l |}, [EClear p])   (* shared_dict.clear() *)
+    | PStart, CLen :: r => (h, d, {| pc := PStart; todo := r; nacc := k; last := l |}, [ELen p blen])   (* len(self.dataset) *)
+    | PStart, CMut w :: r => (hbump w l h, d, {| pc := PStart; todo := r; nacc := k; last := l |}, [EMut p])
     | PStart, CGet i :: _ =>                                                             (* idx not in self.shared_dict *)
         match dget i d with
-        | Some _ => (d, {| pc := PHit i; todo := todo pr; nacc := k |}, [])
-        | None => (d, {| pc := PMiss i; todo := todo pr; nacc := k |}, [])
+        | Some _ => (h, d, {| pc := PHit i; todo := todo pr; nacc := k; last := l |}, [])
+        | None => (h, d, {| pc := PMiss i; todo := todo pr; nacc := k; last := l |}, [])
         end
     | PMiss i, r =>                                                                      (* sample = self.dataset[idx] *)
         match base i with
-        | Some v => (d, {| pc := PSet i v; todo := r; nacc := k |}, [ELoad p i])
-        | None => (d, {| pc := PStart; todo := tl r; nacc := k |}, [ELoad p i; ERet p i k RBaseError])
+        | Some v => let '(h', a) := halloc v h in
+                    (h', d, {| pc := PSet i a; todo := r; nacc := k; last := l |}, [ELoad p i])
+        | None => (h, d, {| pc := PStart; todo := tl r; nacc := k; last := l |}, [ELoad p i; ERet p i k RBaseError])
         end
-    | PSet i v, r =>                                        (* self.shared_dict[idx] = sample; return transform(sample) *)
-        (dset i v d, {| pc := PStart; todo := tl r; nacc := S k |}, [ERet p i k (RVal (tf (draws p k) v))])
+    | PSet i a, r =>                               (* self.shared_dict[idx] = sample; return transform(copy(sample)) *)
+        let '(h1, ad) := transport h a in
+        let '(h2, reach, e) := deliver p i k h1 a in
+        (h2, dset i ad d, {| pc := PStart; todo := tl r; nacc := S k; last := reach |}, [e])
     | PHit i, r =>                                                                       (* sample = self.shared_dict[idx] *)
         match dget i d with
-        | Some v => (d, {| pc := PStart; todo := tl r; nacc := S k |}, [ERet p i k (RVal (tf (draws p k) v))])
+        | Some ad => let '(h1, a) := transport h ad in
+                     let '(h2, reach, e) := deliver p i k h1 a in
+                     (h2, d, {| pc := PStart; todo := tl r; nacc := S k; last := reach |}, [e])
         | None => if fixed
-                  then (d, {| pc := PMiss i; todo := r; nacc := k |}, [])                 (* except KeyError: load *)
-                  else (d, {| pc := PStart; todo := tl r; nacc := k |}, [ERet p i k RKeyError])  (* BEFORE the fix *)
+                  then (h, d, {| pc := PMiss i; todo := r; nacc := k; last := l |}, [])  (* except KeyError: load *)
+                  else (h, d, {| pc := PStart; todo := tl r; nacc := k; last := l |}, [ERet p i k RKeyError])  (* BEFORE the fix *)
         end
     end.
 
   Definition step (s : state) (p : nat) : state :=
     match nth_error (procs s) p with
     | None => s
-    | Some pr => let '(d', pr', evs) := pstep p (sd s) pr in
-                 {| sd := d'; procs := set_nth p pr' (procs s); log := log s ++ evs |}
+    | Some pr => let '(h', d', pr', evs) := pstep p (hp s) (sd s) pr in
+                 {| hp := h'; sd := d'; procs := set_nth p pr' (procs s); log := log s ++ evs |}
     end.
 
   (* any schedule *)
   Definition run (sched : list nat) (s : state) : state := fold_left step sched s.
 
-  Definition init (d0 : dict) (progs : list (list cmd)) : state :=
-    {| sd := d0; procs := map (fun pg => {| pc := PStart; todo := pg; nacc := O |}) progs; log := [] |}.
+  Definition init (h0 : heap) (d0 : dict) (progs : list (list cmd)) : state :=
+    {| hp := h0; sd := d0;
+       procs := map (fun pg => {| pc := PStart; todo := pg; nacc := O; last := [] |}) progs; log := [] |}.
 
   (* Sequential histories: a list of (process, command); each command is handed to its process
      and that process alone is scheduled until the command has returned.  A command takes at
@@ -127,8 +177,8 @@ Section Sem.
   Definition push (s : state) (p : nat) (c : cmd) : state :=
     match nth_error (procs s) p with
     | None => s
-    | Some pr => {| sd := sd s;
-                    procs := set_nth p {| pc := pc pr; todo := todo pr ++ [c]; nacc := nacc pr |} (procs s);
+    | Some pr => {| hp := hp s; sd := sd s;
+                    procs := set_nth p {| pc := pc pr; todo := todo pr ++ [c]; nacc := nacc pr; last := last pr |} (procs s);
                     log := log s |}
     end.
 
@@ -136,5 +186,8 @@ Section Sem.
     finish 3 (step (push s (fst pc) (snd pc)) (fst pc)) (fst pc).
 
   Definition seq_exec (n : nat) (hist : list (nat * cmd)) : state :=
-    fold_left do_cmd hist (init [] (repeat [] n)).
+    fold_left do_cmd hist (init [] [] (repeat [] n)).
 End Sem.
+
+(* what the cache holds, by content *)
+Definition dict_content (h : heap) (d : dict) : list (Z * Z) := map (fun kv => (fst kv, hget (snd kv) h)) d.
